@@ -131,9 +131,11 @@ buf2args(char *buf, size_t buf_size, size_t max_args, char **args, size_t *args_
 		}
 		args[ret] = cur_pos;
 		args_sizes[ret] = data_size;
+		ret ++;
+		if (data_size >= cur_size) /* Last arg ends at buf end: no room for zero. */
+			break;
 		(*(cur_pos + data_size)) = 0;
 		data_size ++;
-		ret ++;
 
 		/* Move to next arg. */
 		cur_size -= data_size;
